@@ -176,7 +176,7 @@ theorem validateLines_inv (L f i : Nat) (rest : Bytes) (hf : L - i ≤ 60 * f)
 
 /-- `validateOrigin` accepts exactly written blocks: an accepted buffer of `toOriginLength(L)`
 bytes is `NewOrigin(p)`'s stream for `L` printable residues `p` -/
-theorem validateOrigin_inv (b : Bytes) (L : Nat) (hL : L < 10 ^ 9) (hb : b.length = tl L)
+theorem validateOrigin_inv_le (b : Bytes) (L : Nat) (hL : L ≤ 1000000020) (hb : b.length = tl L)
     (h : validateOrigin b (L : Int) = .ok ()) :
     ∃ p, b = originStream p ∧ printable p ∧ p.length = L := by
   unfold validateOrigin at h
@@ -193,12 +193,22 @@ theorem validateOrigin_inv (b : Bytes) (L : Nat) (hL : L < 10 ^ 9) (hb : b.lengt
   refine ⟨p, ?_, hp, hl⟩
   rw [originStream_eq_S, originStreamS, hl, e, List.append_nil]
 
-/-- … hence it decodes, without a panic, to exactly `L` residues -/
-theorem accepted_decodes (b : Bytes) (L : Nat) (hL : L < 10 ^ 9) (hb : b.length = tl L)
+theorem validateOrigin_inv (b : Bytes) (L : Nat) (hL : L < 10 ^ 9) (hb : b.length = tl L)
+    (h : validateOrigin b (L : Int) = .ok ()) :
+    ∃ p, b = originStream p ∧ printable p ∧ p.length = L :=
+  validateOrigin_inv_le b L (by omega) hb h
+
+/-- … hence it decodes, without a panic, to exactly `L` residues (`L ≤ maxOriginResidues`) -/
+theorem accepted_decodes_le (b : Bytes) (L : Nat) (hL : L ≤ 1000000020) (hb : b.length = tl L)
     (h : validateOrigin b (L : Int) = .ok ()) :
     ∃ p, originBytes b = .ok p ∧ p.length = L ∧ printable p ∧ b = originStream p := by
-  obtain ⟨p, e, hp, hl⟩ := validateOrigin_inv b L hL hb h
-  exact ⟨p, by rw [e]; exact originBytes_originStream p (by omega), hl, hp, e⟩
+  obtain ⟨p, e, hp, hl⟩ := validateOrigin_inv_le b L hL hb h
+  exact ⟨p, by rw [e]; exact originBytes_originStream_le p (by omega), hl, hp, e⟩
+
+theorem accepted_decodes (b : Bytes) (L : Nat) (hL : L < 10 ^ 9) (hb : b.length = tl L)
+    (h : validateOrigin b (L : Int) = .ok ()) :
+    ∃ p, originBytes b = .ok p ∧ p.length = L ∧ printable p ∧ b = originStream p :=
+  accepted_decodes_le b L (by omega) hb h
 
 end Gts.Origin
 
@@ -247,10 +257,10 @@ open Gts.Pars
 theorem wp_panic {α} (Q) (s : PS) : WP (Pars.panic : P α) Q s ↔ Q (.error .panic) s := Iff.rfl
 
 /-- what the ORIGIN reader returns is a block `validateOrigin` accepts, of exactly
-`toOriginLength(length)` bytes -/
-theorem originField_accepted (n : Nat) (d : Nat) (hn : n < 10 ^ 9) (s : PS) :
+`toOriginLength(length)` bytes, and the declared length passed the guard `≤ maxOriginResidues` -/
+theorem originField_accepted (n : Nat) (d : Nat) (s : PS) :
     WP (originField (n : Int) d) (fun r _ => ∀ b, r = .ok b →
-      Origin.validateOrigin b (n : Int) = .ok () ∧ b.length = Origin.tl n) s := by
+      n ≤ 1000000020 ∧ Origin.validateOrigin b (n : Int) = .ok () ∧ b.length = Origin.tl n) s := by
   unfold originField
   rw [wp_bind]; apply wp_all; intro r s1; cases r <;> dsimp only
   · intro b hb; cases hb
@@ -258,6 +268,10 @@ theorem originField_accepted (n : Nat) (d : Nat) (hn : n < 10 ^ 9) (s : PS) :
   · intro b hb; cases hb
   rw [wp_bind]; apply wp_all; intro r s3; cases r <;> dsimp only
   · intro b hb; cases hb
+  split
+  · rw [wp_bind, wp_fail]; intro b hb; cases hb
+  rename_i hguard
+  have hn : n ≤ 1000000020 := by omega
   have hneg : ¬ Origin.toOriginLength (n : Int) < 0 := by
     rw [Origin.toOriginLength_nat]; omega
   rw [if_neg hneg, wp_bind]; apply wp_getS
@@ -276,7 +290,7 @@ theorem originField_accepted (n : Nat) (d : Nat) (hn : n < 10 ^ 9) (s : PS) :
       split
       · rw [wp_fail]; intro b hb; cases hb
       · rw [wp_pure]; intro b hb; cases hb
-        exact ⟨hv, by simp only [List.length_take]; omega⟩
+        exact ⟨hn, hv, by simp only [List.length_take]; omega⟩
     · rw [wp_bind, wp_panic]; intro b hb; cases hb
     · simp only [Int.toNat_natCast, slowLines_eq]
       split
@@ -288,7 +302,7 @@ theorem originField_accepted (n : Nat) (d : Nat) (hn : n < 10 ^ 9) (s : PS) :
           unfold Origin.slowOrigin
           simp only [Origin.toOriginLength_nat, Int.toNat_natCast]
           rw [if_neg (by omega), hp]
-        obtain ⟨hl, hv⟩ := Origin.slow_token_valid s3.rest n _ _ hn hso
+        obtain ⟨hl, hv⟩ := Origin.slow_token_valid_le s3.rest n _ _ hn hso
         rw [wp_bind]; apply wp_all; intro r s4; cases r <;> dsimp only
         · intro b hb; cases hb
         rw [wp_bind, wp_pure]; dsimp only
@@ -299,12 +313,13 @@ theorem originField_accepted (n : Nat) (d : Nat) (hn : n < 10 ^ 9) (s : PS) :
         · rw [wp_pure]; intro b hb; cases hb
           have := hv []
           rw [List.append_nil] at this
-          exact ⟨this, hl⟩
+          exact ⟨hn, this, hl⟩
 
 /-- the sequence part of a record under construction: nothing yet, or a block the ORIGIN reader
 accepted for the declared length -/
 def GoodOrigin (n : Nat) (o : OriginV) : Prop :=
-  o = .buffer [] ∨ ∃ b, o = .buffer b ∧ Origin.validateOrigin b (n : Int) = .ok () ∧ b.length = Origin.tl n
+  o = .buffer [] ∨ ∃ b, o = .buffer b ∧ n ≤ 1000000020 ∧
+    Origin.validateOrigin b (n : Int) = .ok () ∧ b.length = Origin.tl n
 
 def GoodSub (n : Nat) (sub : Sub) : Prop := GoodOrigin n sub.2.2.1
 
@@ -327,16 +342,16 @@ theorem featuresSub_good (n : Nat) (sub : Sub) (h : GoodSub n sub) (s : PS) :
   val_skip
   exact val_pure h
 
-theorem originSub_good (n d : Nat) (hn : n < 10 ^ 9) (sub : Sub) (s : PS) :
+theorem originSub_good (n d : Nat) (sub : Sub) (s : PS) :
     WP (originSub (n : Int) d sub) (Val fun v => GoodSub n v.1) s := by
   obtain ⟨f, t, o, r⟩ := sub
   unfold originSub
   dsimp only
-  refine val_bind (originField_accepted n d hn s) ?_
+  refine val_bind (originField_accepted n d s) ?_
   intro b s' hb
-  exact val_pure (Or.inr ⟨b, rfl, hb.1, hb.2⟩)
+  exact val_pure (Or.inr ⟨b, rfl, hb.1, hb.2.1, hb.2.2⟩)
 
-theorem fieldParsers_good (n d : Nat) (hn : n < 10 ^ 9) :
+theorem fieldParsers_good (n d : Nat) :
     ∀ p ∈ fieldParsers (n : Int) d, ∀ sub, GoodSub n sub → ∀ s,
       WP (p sub) (Val fun v => GoodSub n v.1) s := by
   intro p hp
@@ -345,7 +360,7 @@ theorem fieldParsers_good (n d : Nat) (hn : n < 10 ^ 9) :
   all_goals first
     | exact liftF_good n _
     | exact featuresSub_good n
-    | exact fun sub _ s => originSub_good n d hn sub s
+    | exact fun sub _ s => originSub_good n d sub s
 
 theorem tryList_good (n : Nat) : ∀ (ps : List (Sub → P (Sub × Bool))),
     (∀ p ∈ ps, ∀ sub, GoodSub n sub → ∀ s, WP (p sub) (Val fun v => GoodSub n v.1) s) →
@@ -381,10 +396,10 @@ def Step.sub : Step → Sub
   | .parsed s => s
   | .skip s => s
 
-theorem tryAll_good (n d : Nat) (hn : n < 10 ^ 9) (sub : Sub) (h : GoodSub n sub) (s : PS) :
+theorem tryAll_good (n d : Nat) (sub : Sub) (h : GoodSub n sub) (s : PS) :
     WP (tryAll (n : Int) d sub) (Val fun st => GoodSub n st.sub) s := by
   unfold tryAll
-  refine val_bind (tryList_good n _ (fieldParsers_good n d hn) sub h s) ?_
+  refine val_bind (tryList_good n _ (fieldParsers_good n d) sub h s) ?_
   intro v s' hv
   obtain ⟨⟨f, t, o, r⟩, b⟩ := v
   cases b with
@@ -399,16 +414,16 @@ theorem tryAll_good (n d : Nat) (hn : n < 10 ^ 9) (sub : Sub) (h : GoodSub n sub
     · val_skip
       exact val_pure hv
 
-theorem recordLoop_good (n d : Nat) (hn : n < 10 ^ 9) : ∀ k (sub : Sub), GoodSub n sub → ∀ s,
+theorem recordLoop_good (n d : Nat) : ∀ k (sub : Sub), GoodSub n sub → ∀ s,
     WP (recordLoop (n : Int) d k sub) (Val fun v => GoodSub n v) s
   | 0, _, _, _ => by unfold recordLoop; exact val_fail
   | k + 1, sub, h, s => by
-    have ih := recordLoop_good n d hn k
+    have ih := recordLoop_good n d k
     unfold recordLoop
     val_skip
     split
     · exact val_pure h
-    · refine val_bind (tryAll_good n d hn sub h _) ?_
+    · refine val_bind (tryAll_good n d sub h _) ?_
       intro st s' hst
       cases st with
       | parsed sub' => exact ih sub' hst _
@@ -420,20 +435,20 @@ theorem recordLoop_good (n d : Nat) (hn : n < 10 ^ 9) : ∀ k (sub : Sub), GoodS
         · refine val_bind (φ := fun _ => False) val_fail ?_; intro _ _ hf; exact hf.elim
         · exact ih sub' hst _
 
-theorem recordLoop_good_run (n d : Nat) (hn : n < 10 ^ 9) (k : Nat) (sub : Sub) (h : GoodSub n sub)
+theorem recordLoop_good_run (n d : Nat) (k : Nat) (sub : Sub) (h : GoodSub n sub)
     (s : PS) (v : Sub) (s' : PS) (hr : (recordLoop (n : Int) d k sub).run' s = (.ok v, s')) :
     GoodSub n v := by
-  have := recordLoop_good n d hn k sub h s
+  have := recordLoop_good n d k sub h s
   unfold WP Val at this
   rw [hr] at this
   exact this v rfl
 
 /-- a good sequence part decodes without a panic to as many residues as `Len()` reports -/
-theorem GoodOrigin.decodes {n : Nat} {o : OriginV} (hn : n < 10 ^ 9) (h : GoodOrigin n o) :
+theorem GoodOrigin.decodes {n : Nat} {o : OriginV} (h : GoodOrigin n o) :
     ∃ p, o.bytes = .ok p ∧ (p.length : Int) = o.len ∧ Origin.printable p := by
-  rcases h with rfl | ⟨b, rfl, hv, hl⟩
+  rcases h with rfl | ⟨b, rfl, hn, hv, hl⟩
   · exact ⟨[], rfl, rfl, Origin.printable_nil⟩
-  · obtain ⟨p, hd, hpl, hpp, hb⟩ := Origin.accepted_decodes b n hn hl hv
+  · obtain ⟨p, hd, hpl, hpp, hb⟩ := Origin.accepted_decodes_le b n hn hl hv
     refine ⟨p, hd, ?_, hpp⟩
     show (p.length : Int) = Origin.originLen b
     unfold Origin.originLen
@@ -444,12 +459,12 @@ theorem GoodOrigin.decodes {n : Nat} {o : OriginV} (hn : n < 10 ^ 9) (h : GoodOr
       omega
     · rw [Origin.fromOriginLength_tl]
 
-/-- every record `GenBankParser` returns for a declared length below 10^9 has a sequence that
-decodes (`Origin.Bytes()`) without a panic, to exactly `Origin.Len()` printable residues -/
+/-- every record `GenBankParser` returns has a sequence that decodes (`Origin.Bytes()`) without a
+panic, to exactly `Origin.Len()` printable residues -/
 theorem genbankParser_decodes (reg : Registry) (s : PS) (r : Record) (reg' : Registry) (s' : PS)
     (h : (genbankParser reg).run' s = (.ok (r, reg'), s')) :
-    ∃ l s1, locusParser.run' s = (.ok l, s1) ∧ (l.length < 10 ^ 9 →
-      ∃ p, r.origin.bytes = .ok p ∧ (p.length : Int) = r.origin.len ∧ Origin.printable p) := by
+    ∃ l s1, locusParser.run' s = (.ok l, s1) ∧
+      ∃ p, r.origin.bytes = .ok p ∧ (p.length : Int) = r.origin.len ∧ Origin.printable p := by
   unfold genbankParser at h
   rw [run_bind] at h
   rcases hl : locusParser.run' s with ⟨r1, s1⟩
@@ -457,7 +472,6 @@ theorem genbankParser_decodes (reg : Registry) (s : PS) (r : Record) (reg' : Reg
   rcases r1 with e | l
   · cases h
   · refine ⟨l, s1, rfl, ?_⟩
-    intro hlt
     dsimp only at h
     rw [run_bind, run_clear] at h
     dsimp only at h
@@ -466,7 +480,6 @@ theorem genbankParser_decodes (reg : Registry) (s : PS) (r : Record) (reg' : Reg
     · rename_i hc
       have h0 : 0 ≤ l.length := by omega
       obtain ⟨n, hn⟩ := Int.eq_ofNat_of_zero_le h0
-      have hn9 : n < 10 ^ 9 := by omega
       split at h
       · rw [run_bind, run_fail] at h; cases h
       · split at h
@@ -481,11 +494,11 @@ theorem genbankParser_decodes (reg : Registry) (s : PS) (r : Record) (reg' : Reg
           · cases h
           · dsimp only at h
             have hgo : GoodOrigin n org :=
-              recordLoop_good_run n l.depth hn9 _ _ (Or.inl rfl) _ _ _ hrr
+              recordLoop_good_run n l.depth _ _ (Or.inl rfl) _ _ _ hrr
             split at h
             · rw [run_bind, run_fail] at h; cases h
             · rw [run_pure] at h
               cases h
-              exact hgo.decodes hn9
+              exact hgo.decodes
 
 end Gts.GenBank
